@@ -312,6 +312,103 @@ theorem legacy_two_instances_race :
       ∧ m.finished = true ∧ m.failed ≠ [false, false] :=
   ⟨[0, 1, 0,0,0,0,0,0,0, 1,1,1,1,1,1,1, 0,0,0,0,0, 1,1,1,1,1], by decide⟩
 
+/-! ## order of completion (non-LIFO overlap) -/
+
+/-- Whatever the order in which overlapping copies begin and finish (any interleaving of any
+steps of any number of threads, no move of the environment): once no copy is in progress the table
+is what it was before the library was used, and no copy has failed. -/
+theorem completion_order_irrelevant {foreign : Bool} {n : Nat} (as : List Step) (s : Sys)
+    (hr : run (init foreign n) as = some s) (hne : ∀ a ∈ as, ∀ f, a ≠ Step.external f)
+    (hq : s.quiescent) :
+    s.table = (if foreign then some Entry.foreign else none) ∧ s.patched = false ∧ s.refcount = 0
+      ∧ ∀ t, s.failedOf t = false := by
+  have hreach : Reachable foreign n s := run_reachable Reachable.init as hr
+  obtain ⟨qt, _, qp, qr⟩ := quiescent_restored hreach hq
+  exact ⟨by rw [qt, orig_initial as hr hne], qp, qr, (inv_reachable hreach).1.noFail⟩
+
+/-- Order of completion does not matter (fixed code): from any reachable state in which no copy
+is in progress, thread `a` begins a copy, thread `b` begins one, `a` finishes FIRST, then `b`
+(the non-LIFO order): every step is enabled, both copies find a reducer, and the table ends up
+exactly as the library found it, flag and counter reset. -/
+theorem nonlifo_restored {foreign : Bool} {n : Nat} {s : Sys} (h : Reachable foreign n s)
+    (hq : s.quiescent) (a b : Nat) (ha : a < n) (hb : b < n) (hab : a ≠ b) :
+    ∃ s', run s [.enter a, .enter b, .copyModule a, .exit a, .copyModule b, .exit b] = some s'
+      ∧ Reachable foreign n s' ∧ s'.quiescent ∧ s'.table = s.orig ∧ s'.patched = false ∧ s'.refcount = 0
+      ∧ ∀ t, s'.failedOf t = false := by
+  obtain ⟨hi, hl⟩ := inv_reachable h
+  have la : a < s.depth.length := by omega
+  have lb : b < s.depth.length := by omega
+  -- enter a
+  let s1 := enterStep s a
+  have e1 : step s (.enter a) = some s1 := by simp [step, la, s1]
+  have d1 := depth_enterStep s a la
+  have l1 : s1.depth.length = s.depth.length := len_enterStep s a
+  -- enter b
+  let s2 := enterStep s1 b
+  have lb1 : b < s1.depth.length := by omega
+  have e2 : step s1 (.enter b) = some s2 := by simp [step, lb1, s2]
+  have d2 := depth_enterStep s1 b lb1
+  have r2 : Reachable foreign n s2 := Reachable.step _ (Reachable.step _ h e1) e2
+  have s2a : s2.depthOf a = 1 := by rw [d2.2 a hab, d1.1, hq a]
+  have s2b : s2.depthOf b = 1 := by rw [d2.1, d1.2 b (Ne.symm hab), hq b]
+  -- copy a
+  have c3 := copies_succeed r2 a (by omega)
+  -- exit a
+  let s4 := exitStep s2 a
+  have e4 : step s2 (.exit a) = some s4 := by simp [step, s2a, s4]
+  have d4 := depth_exitStep s2 a (by omega)
+  have r4 : Reachable foreign n s4 := Reachable.step _ r2 e4
+  have s4b : s4.depthOf b = 1 := by rw [d4.2 b (Ne.symm hab), s2b]
+  have c5 := copies_succeed r4 b (by omega)
+  let s6 := exitStep s4 b
+  have e6 : step s4 (.exit b) = some s6 := by simp [step, s4b, s6]
+  have d6 := depth_exitStep s4 b (by omega)
+  have r6 : Reachable foreign n s6 := Reachable.step _ r4 e6
+  have q6 : s6.quiescent := by
+    intro t
+    by_cases tb : t = b
+    · subst tb; rw [d6.1, s4b]
+    · rw [d6.2 t tb]
+      by_cases ta : t = a
+      · subst ta; rw [d4.1, s2a]
+      · rw [d4.2 t ta, d2.2 t tb, d1.2 t ta, hq t]
+  have o6 : s6.orig = s.orig := by
+    show (exitStep (exitStep (enterStep (enterStep s a) b) a) b).orig = s.orig
+    rw [orig_exitStep, orig_exitStep, orig_enterStep, orig_enterStep]
+  obtain ⟨qt, _, qp, qr⟩ := quiescent_restored r6 q6
+  refine ⟨s6, ?_, r6, q6, by rw [qt, o6], qp, qr, (inv_reachable r6).1.noFail⟩
+  simp only [run, e1, e2, c3.2.1, e4, c5.2.1, e6]
+
+open PerUse in
+/-- A guard whose "I installed the entry" flag is remembered per use leaks the entry as soon as two
+copies overlap WITHOUT being nested (A begins, B begins, A finishes, B finishes): nobody is inside
+any more, both copies succeeded, and the table still holds our reducer. -/
+theorem peruse_flag_nonlifo_leak :
+    ∃ s, prun (pinit 2) [.enter 0, .enter 1, .copy 0, .exit 0, .copy 1, .exit 1] = some s
+      ∧ s.quiescent = true ∧ s.failed = false ∧ s.table = some Entry.ours := ⟨_, rfl, by decide⟩
+
+open PerUse in
+/-- ... while every LIFO order of the same two copies, nesting in one thread included, is clean: the
+defect is invisible to sequential tests and to well-nested schedules. -/
+theorem peruse_flag_lifo_clean :
+    (∀ s, prun (pinit 2) [.enter 0, .enter 1, .copy 0, .copy 1, .exit 1, .exit 0] = some s →
+        s.quiescent = true ∧ s.table = none)
+    ∧ (∀ s, prun (pinit 2) [.enter 0, .enter 0, .copy 0, .exit 0, .exit 0, .enter 1, .copy 1, .exit 1] = some s →
+        s.quiescent = true ∧ s.table = none) := by
+  constructor <;> (intro s hs; cases hs; decide)
+
+/-- non-vacuity of `nonlifo_restored`: the initial state of two threads satisfies its hypotheses, and the
+state in the middle (A has finished, B is still copying) really holds our entry with counter 1 -/
+example : ∃ s, run (init false 2) [.enter 0, .enter 1, .copyModule 0, .exit 0] = some s
+    ∧ s.depthOf 0 = 0 ∧ s.depthOf 1 = 1 ∧ s.table = some Entry.ours ∧ s.refcount = 1 ∧ s.patched = true :=
+  ⟨_, rfl, by decide⟩
+
+example : ∃ s', run (init false 2) [.enter 0, .enter 1, .copyModule 0, .exit 0, .copyModule 1, .exit 1] = some s'
+    ∧ s'.table = none :=
+  let ⟨s', h1, _, _, h4, _⟩ := nonlifo_restored (foreign := false) (n := 2) Reachable.init
+    (by intro t; match t with | 0 => rfl | 1 => rfl | (t + 2) => rfl) 0 1 (by omega) (by omega) (by omega)
+  ⟨s', h1, h4⟩
+
 /-! ## non-vacuity -/
 
 /-- a reachable non-quiescent state with two threads, one of them nested -/
